@@ -2,7 +2,8 @@
 (* One trace = one concrete byte stream (TR.wire) pushed through the REAL decoder of TR.cfg.proto once per      *)
 (* chunking.  Each line e is one chunking: e.t = "m": bit i-1 of e.m set <=> a read boundary after byte i;       *)
 (* e.t = "k": e.k = list of read sizes.  Logged observations: e.o = ids (index into TR.tbl) of the messages       *)
-(* handed to the message processor, in order; e.s = states of the configured switches afterwards; e.c / e.ls =    *)
+(* handed to the message processor, in order; e.h = for each of them the states of the configured switches when    *)
+(* its handler had returned or raised (bit j-1 = switch cfg.sws[j]); e.s = the states at the end; e.c / e.ls =      *)
 (* bytes carried over / lost-synch flag; e.f = PKONE in-flight counter; e.dd = the decoder raised (reader task   *)
 (* dead).  A line is accepted iff                                                                                  *)
 (* the observations equal the model's decode of the same chunking AND the model's whole-stream decode.            *)
@@ -26,11 +27,14 @@ FeedSizes(d, ks, s) == IF ks = <<>> THEN d
                        ELSE FeedSizes(Feed(cfg, d, SubSeq(wire, s + 1, s + Head(ks))), Tail(ks), s + Head(ks))
 IdOf(m) == IF \E i \in 1..Len(TR.tbl) : TR.tbl[i] = m THEN CHOOSE i \in 1..Len(TR.tbl) : TR.tbl[i] = m ELSE 0
 OutIds(d) == [i \in 1..Len(d.out) |-> IdOf(d.out[i].m)]
+RECURSIVE MaskOf(_)
+MaskOf(s) == IF s = <<>> THEN 0 ELSE Head(s) + 2 * MaskOf(Tail(s))
+HistMasks(d) == [i \in 1..Len(d.hist) |-> MaskOf(Digest(cfg, d.hist[i]))]
 Step(e) ==
     e.t \in {"m", "k"} /\          \* a {t: "crash"} line (the harness itself failed) is never accepted
     LET d == IF e.t = "m" THEN FeedMask(InitDec(cfg), e.m, 1, 1) ELSE FeedSizes(InitDec(cfg), e.k, 0)
         w == Whole(Len(wire))
-    IN /\ e.o = OutIds(d) /\ e.s = Digest(cfg, d.sw) /\ e.dd = d.dead /\ (d.dead \/ e.f = d.infl)
+    IN /\ e.o = OutIds(d) /\ e.h = HistMasks(d) /\ e.s = Digest(cfg, d.sw) /\ e.dd = d.dead /\ (d.dead \/ e.f = d.infl)
        /\ NormCarry(cfg, [d EXCEPT !.buf = e.c, !.lost = e.ls]) = NormCarry(cfg, d)
        /\ Norm(cfg, d) = Norm(cfg, w)              \* ChunkInvariance on this very stream
        /\ dec' = d
